@@ -74,6 +74,7 @@ def app_call(run, ws, name, *args, **kw):
     """Perform an application call, never letting it disturb the driver."""
     w = run.world
     before = len(w.log)
+    tx_before = sum(len(c.tx) for c in w.conns)
     rec = dict(ev=len(run.events) - 1, name=name, args=args, kw=kw, ok=False, exc=None,
                exc_type=None, t=w.now, log_before=before)
     try:
@@ -83,6 +84,10 @@ def app_call(run, ws, name, *args, **kw):
         rec['exc'] = repr(e)
         rec['exc_type'] = type(e)
     rec['wrote'] = [e for e in w.log[before:] if e[0] in ('sendall', 'sendall_fault')]
+    # the bytes that really reached the wire during the call (partial writes included)
+    rec['wire'] = b''.join(e[5] for e in w.log[before:] if e[0] in ('sendall', 'send_part')
+                           and not (e[0] == 'sendall' and w.split_send and w.yield_hook is not None))
+    rec['faulted'] = any(e[0] == 'sendall_fault' for e in w.log[before:])
     run.calls.append(rec)
     return rec
 
